@@ -246,7 +246,7 @@ PROPS = {
         model_limits='inputs run in child processes (exit status, handlePanic closure, hang, probe SEND afterwards); the failure points a finite block gas limit puts inside the handlers are enumerated exactly by the gassweep engine (every refusable store operation of a generated transaction is in turn the first one refused), not sampled'),
     'C05': dict(
         lean_modules=['OLP.Props.C05', 'OLP.Props.C05Facts', 'OLP.Props.C05Spelling'], namespaces=['OLP.Props.C05'],
-        required_theorems=['replay_any_spelling_noop', 'two_spellings_not_one', 'replay_any_encoding_noop_guarded', 'replay_any_encoding_rejected_guarded', 'guarded_instance', 'canonical_instance', 'gdH_not_canonical', 'replay_deliver_noop', 'replay_check_rejected', 'executed_tx_indexed', 'index_is_stable', 'replay_noop_in_later_block', 'replay_any_encoding_noop_partial', 'reencoded_replay_executes_twice', 'canonical_guard_present'],
+        required_theorems=['envelope_fields_as_expected', 'unsigned_part_is_the_signature_list', 'replay_any_spelling_noop', 'two_spellings_not_one', 'replay_any_encoding_noop_guarded', 'replay_any_encoding_rejected_guarded', 'guarded_instance', 'canonical_instance', 'gdH_not_canonical', 'replay_deliver_noop', 'replay_check_rejected', 'executed_tx_indexed', 'index_is_stable', 'replay_noop_in_later_block', 'replay_any_encoding_noop_partial', 'reencoded_replay_executes_twice', 'canonical_guard_present'],
         run=run_c05, replay=replay_olh('replay'), level='proof',
         assumptions=SHELL_ASSUME + ['SHA-256 of the received bytes is collision free (the hash is a parameter of the theorems)', 'the Tendermint kv tx indexer is trusted; the harness feeds it after every block as the indexer service does'],
         model_limits='re-encodings: `replay_any_encoding_noop_guarded` / `_rejected_guarded` state the property without `Canonical`, for handlers of the shape the code has since round 1 — bytes that are not the canonical serialisation of their parse are refused before anything runs (`Guarded`; tied to the source by the T3 fact `canonical_guard_present` for both entry points) — with `parse t2 = parse t1` as "the same signed content"; the older `replay_any_encoding_noop_partial` (under `Canonical`) is kept. What the shell model cannot see is a second spelling INSIDE the parse (another byte string for the same key or signature): one spelling per key and per signature in the key handlers (ED25519: Go rejects s >= L; SECP256K1: fixed length and low-s rule of Tendermint; BTCEC: compressed key only and low-s DER without trailing bytes since d4987f9 / 9dae7fc) — both exercised by the replay engine (re-encoding classes 0-10 over originals signed with the three algorithms); OLVM transactions additionally rely on the account nonce (only `stNonce > msgNonce` is rejected, S12)'),
